@@ -28,8 +28,18 @@ func diffNestedFlat(sc *scen.Scenario) (fs []scen.Finding, nested, flat []scen.O
 			add("panic", "panic nested=%q flat=%q", on.Panic, of.Panic)
 			continue
 		}
+		if on.Runaway != of.Runaway {
+			add("runaway", "one arrangement terminates, the other does not (nested runaway=%v, flat runaway=%v)", on.Runaway, of.Runaway)
+			continue
+		}
 		kn, kf := strings.Join(keysOf(on.Events), " "), strings.Join(keysOf(of.Events), " ")
 		if kn != kf {
+			if len(kn) > 400 {
+				kn = kn[:400] + "…"
+			}
+			if len(kf) > 400 {
+				kf = kf[:400] + "…"
+			}
 			add("visit-order", "nested and flattened executions differ in the callbacks they make:\n nested: %s\n flat  : %s", kn, kf)
 		}
 		if strings.Join(on.Store, " ") != strings.Join(of.Store, " ") {
@@ -81,6 +91,7 @@ func runC10(c *Cfg) {
 				break
 			}
 		}
+		sc.Rewire = nil // the flattened twin is built once; Connect calls between runs are C03's
 		if i%4 == 0 {
 			failSomewhere(rg.IntN(1<<30), sc) // inner flows ending by error
 		}
